@@ -47,6 +47,7 @@ type lcSt struct {
 	StopMs  int      `json:"stopMs"`  // how long Stop took (-1: not returned)
 	Hdrs    []int    `json:"hdrs"`    // heights announced to the handlers, in order
 	Peers   bool     `json:"peers"`   // the peer data is in storage
+	Feed    string   `json:"feed"`    // the client thread that submits transactions: "" | "blocked" | "ended a/r" (accepted / refused) | "PANIC ..."
 }
 type lcLine struct {
 	Tr   string `json:"tr"`
@@ -132,6 +133,8 @@ type lcH struct {
 	runDone  chan error
 	runOver  bool
 	pmu      sync.Mutex
+	feed     string
+	feedOn   bool
 	phases   []string
 	saved    lcSaved
 	locTop   int
@@ -302,6 +305,12 @@ func (h *lcH) tx(k int) *wire.MsgTx {
 	return tx
 }
 
+func (h *lcH) setFeed(v string) {
+	h.pmu.Lock()
+	h.feed = v
+	h.pmu.Unlock()
+}
+
 func (h *lcH) afterStopReturned() {
 	h.stopRet = true
 	h.cbAtStop = h.total()
@@ -464,6 +473,37 @@ func (h *lcH) step(a lcAct) (res string) {
 			h.n.blockLock.Lock()
 			h.n.blockLock.Unlock()
 		}
+	case "Feed":
+		// a thread of the application submits transactions that match no filter while the call-back is held: the consumer is
+		// waiting for the transaction repository, the channel fills up and the submitting call blocks
+		if h.gate != "held" || h.conn == nil || h.feedOn {
+			return "not enabled"
+		}
+		h.feedOn = true
+		h.setFeed("blocked")
+		go func() {
+			acc, ref := 0, 0
+			defer func() {
+				if e := recover(); e != nil {
+					h.setFeed(fmt.Sprintf("PANIC in the submitting thread: %v", e))
+					return
+				}
+				h.setFeed(fmt.Sprintf("ended %d/%d", acc, ref))
+			}()
+			for i := 0; i < 160; i++ {
+				tx := wire.NewMsgTx(1)
+				z := bitcoin.Hash32{byte(i), 0x0F, 0x0F}
+				tx.AddTxIn(wire.NewTxIn(wire.NewOutPoint(&z, 0), []byte{0x51}))
+				tx.AddTxOut(wire.NewTxOut(1, []byte{0x51}))
+				if err := h.n.HandleTx(vCtx(), tx); err != nil {
+					ref++
+				} else {
+					acc++
+				}
+			}
+		}()
+		h.waitFor(3*time.Second, func() bool { return len(h.n.unconfTxChannel.Channel) >= 100 })
+		time.Sleep(20 * time.Millisecond)
 	case "Tx":
 		if h.conn == nil || !h.hs {
 			return "not enabled"
@@ -559,6 +599,7 @@ func (h *lcH) project() lcSt {
 	h.pmu.Lock()
 	s.Phases = append([]string{}, h.phases...)
 	s.Saved = h.saved
+	s.Feed = h.feed
 	h.pmu.Unlock()
 	if s.Run == "stopped" {
 		s.Saved = h.readSaved() // what a new process would find
